@@ -39,6 +39,8 @@ pub fn z_counts() -> (u32, u32) { ZC.with(|c| c.get()) }
 pub struct SZ { pub a: Zd, pub b: Zd, pub c: Tr }
 pub struct TZ(pub Zd, pub Zd);
 pub struct SP { pub a: Tr, pub b: TrP, pub c: Tr }
+TUPLE_STRUCTS_1_TO_16
+BRACED_STRUCTS_WIDE
 pub struct TP(pub Tr, pub TrP, pub Tr);
 
 pub struct S2 { pub a: Tr, pub b: Tr }
@@ -53,6 +55,10 @@ pub struct P { pub a: u8, pub b: Tr, pub c: Tr }
 pub struct P2(pub u8, pub Tr, pub u16, pub Tr);
 pub mod inner { pub struct M { pub a: super::Tr, pub b: super::Tr } }
 '''
+
+
+SUPPORT_EXTRA = SUPPORT_EXTRA.replace("TUPLE_STRUCTS_1_TO_16", "\n".join(f"pub struct TS{n}(" + ", ".join(["pub Tr"] * n) + ");" for n in range(1, 17)))
+SUPPORT_EXTRA = SUPPORT_EXTRA.replace("BRACED_STRUCTS_WIDE", "\n".join(f"pub struct BS{n} {{ " + ", ".join(f"pub f{i}: Tr" for i in range(n)) + " }" for n in (5, 8, 12, 16, 20)))
 
 
 def pay(i):
@@ -108,6 +114,22 @@ def programs(tier):
     prog("T3(a, n, c) mixed Copy field", "T3(tr(1), 5, tr(2))", "konst::destructure!{T3(a, n, c) = v} assert_eq!(n, 5);", [("a", 1), ("c", 2)], [])
     prog("GT(a, b) generic tuple struct", "GT(tr(1), tr(2))", "konst::destructure!{GT(a, b) = v}", [("a", 1), ("b", 2)], [])
     prog("GT::<Tr>, (a, b) path form", "GT(tr(1), tr(2))", "konst::destructure!{GT::<Tr>, (a, b) = v}", [("a", 1), ("b", 2)], [])
+    # ---- tuple structs of every arity 1..=16, in the path form and in the `Type, (..)` form (each form has its own index table)
+    for n in range(1, 17):
+        make = f"TS{n}(" + ", ".join(f"tr({i})" for i in range(1, n + 1)) + ")"
+        names = [f"e{i}" for i in range(1, n + 1)]
+        prog(f"tuple struct arity {n}, path form", make, f"konst::destructure!{{TS{n}({', '.join(names)}) = v}}", [(nm, i + 1) for i, nm in enumerate(names)], [])
+        prog(f"tuple struct arity {n}, type form", make, f"konst::destructure!{{TS{n}, ({', '.join(names)}) = v}}", [(nm, i + 1) for i, nm in enumerate(names)], [])
+        for pos in sorted({0, n // 2, n - 1}):
+            nm2 = list(names)
+            nm2[pos] = "_"
+            prog(f"tuple struct arity {n} with _ at {pos}", make, f"konst::destructure!{{TS{n}({', '.join(nm2)}) = v}}", [(nm, i + 1) for i, nm in enumerate(names) if i != pos], [pos + 1])
+    # ---- wide braced structs (more fields than any internal table), fields listed in reverse order
+    for n in (5, 8, 12, 16, 20):
+        make = f"BS{n} {{ " + ", ".join(f"f{i}: tr({i + 1})" for i in range(n)) + " }"
+        fields = [f"f{i}" for i in range(n)]
+        prog(f"braced struct with {n} fields", make, f"konst::destructure!{{BS{n} {{{', '.join(fields)}}} = v}}", [(f, i + 1) for i, f in enumerate(fields)], [])
+        prog(f"braced struct with {n} fields, reversed order, one ignored", make, f"konst::destructure!{{BS{n} {{{', '.join(reversed(fields[1:]))}, f0: _}} = v}}", [(f, i + 1) for i, f in enumerate(fields) if i != 0], [1])
     # ---- tuples of every arity 1..=16
     for n in range(1, 17):
         make = "(" + ", ".join(f"tr({i})" for i in range(1, n + 1)) + ("," if n == 1 else "") + ")"
